@@ -4,6 +4,7 @@
    is an ARBITRARY oracle (number of errors so far -> continue?). *)
 From Coq Require Import List ZArith Bool.
 From TM Require Import Gram.PTables Gram.Run Gram.Validator Gram.Events Gram.Recover Gram.Recover_proofs Gram.Recover_progress.
+From TM Require Import Gram.RedTerm Gram.RedTerm_proofs Gram.RedTermRec_proofs.
 Import ListNotations.
 Local Open Scope Z_scope.
 
@@ -117,14 +118,58 @@ Theorem C19_conditions_hold_for_optimized_tables :
   forall p o terms rl rs, rp_m p = opt_machine o terms rl rs -> rp_shift_ok p = shift_ok_opt o -> lalr1 p /\ shift_ok_sound p.
 Proof. exact conditions_opt. Qed.
 
-(* NOT proved (partial): the hypotheses about the reduction sequences of the PLAIN loop (reductions_terminate,
-   reductions_bounded R) from the validator conditions of C01 -- C01 proves acceptance of sentences with some fuel
-   and absence of crashes, but no bound on reduction sequences on arbitrary (also invalid) input; for real grammars
-   the bound depends on the stack depth, so reductions_bounded with a uniform R is a strong assumption, while
-   reductions_terminate is what any terminating plain parser satisfies. Also not proved: absence of the
-   index-out-of-range crashes modelled as RCrash (reduceAll walking below the stack, a goto of -1 inside
-   reduceAll). Both are monitored: generated parsers run under a time limit with recover(), and the model reports
-   RCrash/RFuel. *)
+(* ---- the hypotheses about the plain loop's reductions, discharged by validators on the tables ---- *)
+(* RedTerm.check_redterm m nstates T NS F (a boolean, evaluated on the real tables by the C19 check): for every state b,
+   every symbol A with a goto t = goto(b, A) and every terminal a, the reductions on lookahead a from the stack
+   [t; b] stop, or pop the entry b, within F steps.  check_range: shifts and gotos of table states are table
+   states, reduced rules have a symbol of the tables as left-hand side.  Neither uses the grammar or a certificate;
+   C01's Validator.check is not needed. *)
+
+(* Reduction sequences are bounded by the stack depth: on tables passing the two checks, a configuration whose stack
+   holds table states and whose next token is a terminal admits at most (|stack| + 1) * F + 2 consecutive reductions
+   of the plain loop (each anchored phase ends within F steps and leaves a strictly lower stack). *)
+Theorem C19_reductions_bounded_by_stack_depth :
+  forall p nstates T NS F, lalr1 p ->
+  check_redterm (rp_m p) nstates T NS F = true -> check_range (rp_m p) nstates T NS = true ->
+  forall x, xinv p nstates T x -> reduces_for p (S (S (length (xc_stack x)) * F + 1)) x = false.
+Proof. exact redterm_bound. Qed.
+
+(* Termination of the whole recovering parse WITHOUT the hypotheses reductions_terminate / eoi_ends: on tables passing
+   check_range, check_redterm and check_eoi (end-of-input is only shifted into the end state, table states only),
+   whose 'error' symbol is a symbol of the tables and has no goto from the state -1 (the state a failed goto leaves
+   on the stack), the recovering loop stops with some fuel from EVERY configuration over table states and terminals
+   (rinv: any stack, any recovery counter, any error list) and hence for every input over the terminals, every start
+   state of the tables and every error handler. *)
+Theorem C19_recovering_parse_terminates_on_validated_tables :
+  forall p eh nstates T NS F, lalr1 p -> shift_ok_sound p -> 0 <= rp_end p ->
+  check_range (rp_m p) nstates T NS = true -> check_redterm (rp_m p) nstates T NS F = true ->
+  check_eoi (rp_m p) nstates (rp_end p) = true ->
+  0 <= rp_err_sym p < NS -> m_goto (rp_m p) (-1) (rp_err_sym p) = -1 ->
+  (forall c, rinv nstates T c -> exists f, fst (rrun_loop f p eh c) <> RFuel) /\
+  (forall start input, 0 <= start < nstates -> Forall (fun t => 0 <= t_sym t < T) input ->
+     exists f, fst (rrun f p eh start input) <> RFuel).
+Proof. exact rrun_terminates_validated. Qed.
+
+(* The recovering loop relative to ANY invariant of its iterations (the general form of the theorem above). *)
+Theorem C19_recovering_parse_terminates_under_an_invariant :
+  forall p eh, lalr1 p -> shift_ok_sound p -> 0 <= rp_end p ->
+  forall Inv : rconfig -> Prop,
+  (forall c c', Inv c -> rstep p eh c = RContinue c' -> Inv c') ->
+  (forall c, Inv c -> exists n, reduces_for p n (rc_x c) = false) ->
+  (forall c q, Inv c -> m_act (rp_m p) (xc_state (rc_x c)) 0 [] = Shift q -> q = rp_end p) ->
+  forall c, Inv c -> exists f, fst (rrun_loop f p eh c) <> RFuel.
+Proof. exact rrun_terminates_inv. Qed.
+
+(* Still NOT proved (partial): (1) an explicit fuel bound for the whole parse from the validators (the bound above is
+   per reduction sequence and depends on the stack depth; C19_recovering_parse_fuel_bound keeps its uniform-R
+   hypothesis); (2) the premise m_goto (-1) err = -1 holds for the default encoding (evaluated by the check) but
+   not in the model of the optimized encoding, where the generated gotoState would index tmAction[-1] and panic; the
+   state -1 only appears after a reduction whose goto is missing, which C01's Validator.check excludes on stacks
+   spelled by the certificate, but that invariant is not carried through recovery here; note also that eoi_ends
+   (all integers as states) fails for opt_machine, so C19_recovering_parse_terminates is vacuous for optimized
+   tables while the theorem above uses check_eoi (table states only); (3) absence of the index-out-of-range crashes
+   modelled as RCrash (reduceAll walking below the stack, a goto of -1 inside reduceAll).  These are monitored:
+   generated parsers run under a time limit with recover(), and the model reports RCrash/RFuel. *)
 
 (* non-vacuity: a two-state machine with an 'error' transition; the input "x y" has a syntax error at x, recovery
    skips x, pushes the error entry, and the loop then shifts y into the end state *)
@@ -149,6 +194,32 @@ Proof.
   vm_compute. repeat split; reflexivity.
 Qed.
 
+(* non-vacuity of the validated-tables theorem: textmapper's real tables of C01's example grammar
+   N0 : 'a' 'b' 'b' N0 | %empty  (7 states, 4 terminals, 5 symbols; terminal 1 plays the 'error' symbol) pass the
+   checks with F = 8, and the recovering loop stops on "abba" *)
+Definition t0 : default_enc :=      (* the tables of Props/C01.v *)
+  mkDefaultEnc [-3; -1; -1; -9; 0; -1; -2] [2; -1; 0; 1; -1; -2; 2; -1; 0; 1; -1; -2] [0; 2; 2; 6; 10; 14]
+               [5; 6; 0; 1; 3; 1; 1; 2; 2; 3; 0; 5; 3; 4].
+Definition m0 : machine := lalr1_machine t0 [4; 0] [4; 4].
+Definition p0 : rparams := mkRP m0 [] false 4 6 1 [] (shift_ok_default t0) (fun _ _ => false).
+
+Example C19_validated_example :
+  lalr1 p0 /\ shift_ok_sound p0 /\ 0 <= rp_end p0 /\
+  check_range (rp_m p0) 7 4 5 = true /\ check_redterm (rp_m p0) 7 4 5 8 = true /\ check_eoi (rp_m p0) 7 (rp_end p0) = true /\
+  0 <= rp_err_sym p0 < 5 /\ m_goto (rp_m p0) (-1) (rp_err_sym p0) = -1 /\
+  rinv 7 4 (mkRC (mkXC [mkX 0 0 0 0 (TLeaf 0 0 0)] 0 (toks_of [2; 3; 3; 2]) []) 0 [] (0, 0)) /\
+  fst (rrun 40 p0 (fun _ => true) 0 (toks_of [2; 3; 3; 2])) = RSyntax 4 4.
+Proof.
+  destruct (conditions_default p0 t0 [4; 0] [4; 4] eq_refl eq_refl) as [H1 H2].
+  split; [exact H1|]. split; [exact H2|]. split; [simpl; discriminate|].
+  split; [vm_compute; reflexivity|]. split; [vm_compute; reflexivity|]. split; [vm_compute; reflexivity|].
+  split; [simpl; split; [discriminate|reflexivity]|]. split; [vm_compute; reflexivity|]. split.
+  - unfold rinv. cbn [rc_x xc_stack xc_state xc_input]. split; [discriminate|].
+    split; [constructor; [unfold st_in; simpl; split; [discriminate|reflexivity]|constructor]|]. split; [reflexivity|].
+    repeat constructor; unfold tok_in; simpl; try discriminate.
+  - vm_compute. reflexivity.
+Qed.
+
 Print Assumptions C19_recovery_transparent.
 Print Assumptions C19_errors_inside_the_input_and_ordered.
 Print Assumptions C19_recovery_loop_terminates.
@@ -157,6 +228,9 @@ Print Assumptions C19_progress_after_recovery.
 Print Assumptions C19_every_recovery_consumes_a_token_or_ends_the_parse.
 Print Assumptions C19_recovering_parse_terminates.
 Print Assumptions C19_recovering_parse_fuel_bound.
+Print Assumptions C19_reductions_bounded_by_stack_depth.
+Print Assumptions C19_recovering_parse_terminates_on_validated_tables.
+Print Assumptions C19_recovering_parse_terminates_under_an_invariant.
 Print Assumptions C19_more_fuel_changes_nothing.
 Print Assumptions C19_conditions_hold_for_default_tables.
 Print Assumptions C19_conditions_hold_for_optimized_tables.
